@@ -517,7 +517,7 @@ func specRun(c Case, out []string) (fails []oracleFailure, taints map[string]int
 			}
 			if !d.hashed && len(sc.txns) == 0 {
 				specCheckIndexes(sc, d, i, fail, tainted[cid])
-				specCheckSorted(sc, d, i, fail)
+				specCheckSorted(sc, d, i, fail, tainted[cid])
 				specCheckKeys(sc, d, i, fail, tainted[cid])
 			}
 		case "snapshot":
@@ -1173,7 +1173,9 @@ func specCheckIndexes(sc *specColl, d *dumpState, i int, fail func(string, strin
 }
 
 // C16 (state part): the sorted index holds exactly the live rows with a value, ordered by (value, offset)
-func specCheckSorted(sc *specColl, d *dumpState, i int, fail func(string, string, ...interface{})) {
+// order and uniqueness hold unconditionally; agreement with the rows is judged only on histories free of the
+// known-finding patterns (a put onto a dead offset, D10, legitimately leaves an entry for a row that is not live)
+func specCheckSorted(sc *specColl, d *dumpState, i int, fail func(string, string, ...interface{}), tainted bool) {
 	for name, col := range sc.sorted {
 		es, ok := d.sorted[name]
 		if !ok {
@@ -1192,6 +1194,9 @@ func specCheckSorted(sc *specColl, d *dumpState, i int, fail func(string, string
 				fail("sorted", "line %d: sorted index %s is not ordered at entry %d", i, name, n)
 			}
 			prevK, prevO = string(k), off
+			if tainted {
+				continue
+			}
 			r, live := d.rows[uint32(off)]
 			if !live {
 				fail("sorted", "line %d: sorted index %s holds offset %d which is not a live row", i, name, off)
@@ -1202,7 +1207,7 @@ func specCheckSorted(sc *specColl, d *dumpState, i int, fail func(string, string
 			}
 		}
 		for off, r := range d.rows {
-			if _, has := r[col]; has && !seen[strconv.Itoa(int(off))] {
+			if _, has := r[col]; has && !seen[strconv.Itoa(int(off))] && !tainted {
 				fail("sorted", "line %d: sorted index %s misses row %d which holds a value", i, name, off)
 			}
 		}
